@@ -3,11 +3,13 @@ package c14
 import (
 	"bytes"
 	"fmt"
+	"strings"
 	"sync"
 	"testing"
 	"time"
 
 	"gitlab.com/gomidi/midi/v2"
+	"gitlab.com/gomidi/midi/v2/drivers"
 	"gitlab.com/gomidi/midi/v2/zverif/cable"
 	"gitlab.com/gomidi/midi/v2/zverif/ev"
 	"gitlab.com/gomidi/midi/v2/zverif/live"
@@ -72,6 +74,11 @@ func runMc(c McCase) (res ev.Result) {
 		}); p != "" || lerr != nil {
 			return nil, fmt.Sprintf("ListenTo: %v %s", lerr, p)
 		}
+		// a second Listen while this one is running is a misuse that the driver rejects with an
+		// error; a rejected call must not change what the running listener receives
+		if stop2, err2 := in.Listen(func([]byte, int32) {}, drivers.ListenConfig{ActiveSense: !o.ActiveSense, TimeCode: !o.TimeCode, SysEx: !o.SysEx}); err2 == nil && stop2 != nil {
+			return nil, "skip: the driver accepted a second listener"
+		}
 		for i, m := range c.Msgs {
 			cab.Inject(int32(10+i), m)
 		}
@@ -89,6 +96,10 @@ func runMc(c McCase) (res ev.Result) {
 		return got, ""
 	}
 	base, failed := observe(live.AllOn)
+	if strings.HasPrefix(failed, "skip:") {
+		res.Skip = true
+		return
+	}
 	if failed != "" {
 		res.Violation = "all options on: " + failed
 		return
@@ -129,7 +140,7 @@ func runMc(c McCase) (res ev.Result) {
 }
 
 var mcOptions = ev.NewCheck("C14", "midicatdrv-option-sets",
-	"rapid: 3..25 whole messages (channel voice of 2 and 3 bytes, active sense, timing clock, other real-time, sysex, system common) injected line by line into the process-backed driver running against the stand-in helper; midi.ListenTo under all 8 option sets on the same open port; oracle (metamorphic) as in 'option-sets': run(opts) == projection of run(all on), content, order and time stamps; non-trivial = active sense, timing clock and sysex all present; distinct by case hash",
+	"rapid: 3..25 whole messages (channel voice of 2 and 3 bytes, active sense, timing clock, other real-time, sysex, system common) injected line by line into the process-backed driver running against the stand-in helper; midi.ListenTo under all 8 option sets on the same open port, each time followed by a second Listen call with the opposite options that the driver rejects (a rejected call must change nothing); oracle (metamorphic) as in 'option-sets': run(opts) == projection of run(all on), content, order and time stamps; non-trivial = active sense, timing clock and sysex all present; distinct by case hash",
 	func(t *rapid.T) McCase {
 		var c McCase
 		n := rapid.IntRange(3, 25).Draw(t, "n")
